@@ -183,16 +183,33 @@ def run_grad(ctx) -> RuleResult:
         if not ok:
             result.add(Finding("R-GRAD", module, "gradient", last.node, f"partials are joined along axis {_txt(axis)}"))
         comp = value.args[0]
-        if not isinstance(comp, ast.ListComp) or len(comp.generators) != 1:
-            raise AnalysisError("gradient: partials are not built by one comprehension")
-        gen = comp.generators[0]
-        it = _txt(gen.iter)
-        ok = it.endswith(".names") and "π" + gfunc.args.args[0].arg in it and not gen.ifs
+        raw0 = last.node.value.args[0] if isinstance(last.node.value, ast.Call) and last.node.value.args else None
+        filtered = False
+        if isinstance(comp, (ast.ListComp, ast.GeneratorExp)) and len(comp.generators) == 1:
+            gen = comp.generators[0]
+            it = _txt(gen.iter)
+            filtered = bool(gen.ifs)
+            elt = comp.elt
+        elif isinstance(comp, ast.List) and not comp.elts and isinstance(raw0, ast.Name):
+            # accumulate form:  polys = []; for name in poly.names: polys.append(derivative(poly, name)[None])
+            appended = [call.args[0] for target, call in last.muts.get(raw0.id, ())
+                        if isinstance(target, ast.Attribute) and target.attr == "append" and isinstance(call, ast.Call) and call.args]
+            iters = [s for s in path if s.kind == "iter" and isinstance(s.node, ast.For)]
+            if not appended:
+                continue  # zero iterations on this path: nothing to look at
+            elems = [n for n in walk_shared(appended[0]) if is_S(n, "elem")]
+            if not elems:
+                raise AnalysisError("gradient: appended partial does not depend on the loop variable")
+            it = _txt(elems[0].args[0])
+            filtered = len(appended) != len(iters)
+            elt = appended[0]
+        else:
+            raise AnalysisError("gradient: partials are built neither by one comprehension nor by an accumulate loop")
+        ok = it.endswith(".names") and "π" + gfunc.args.args[0].arg in it and not filtered
         result.ob("gradient: one partial per indeterminate, in names order", ok, module.loc(last.orig), it)
         if not ok:
             result.add(Finding("R-GRAD", module, "gradient", last.node,
-                               f"partials are taken over {it}{' with a filter' if gen.ifs else ''}, not over all poly.names in order"))
-        elt = comp.elt
+                               f"partials are taken over {it}{' with a filter' if filtered else ''}, not over all poly.names in order"))
         inner = elt.value if isinstance(elt, ast.Subscript) else elt
         ok = isinstance(elt, ast.Subscript) and "newaxis" in _txt(elt.slice) or (isinstance(elt, ast.Subscript) and _txt(elt.slice) == "None")
         result.ob("gradient: each partial gets a new leading axis", bool(ok), module.loc(last.orig), "")
@@ -381,20 +398,58 @@ def run_alignfn(ctx) -> RuleResult:
             raise AnalysisError(f"{name}: {callee}([... for poly in polys_]) not recognised")
     func = ctx.repo.function(modname, "align_indeterminants")
     sets = [n for n in ast.walk(func) if isinstance(n, ast.SetComp)]
-    ok = bool(sets) and len(sets[0].generators) == 2 and not any(g.ifs for g in sets[0].generators)
+    unions = [c for c in calls_in(func) if isinstance(c.func, ast.Attribute) and c.func.attr == "union"
+              and c.args and isinstance(c.args[0], ast.Starred)]
+    if sets:
+        gens = sets[0].generators
+        sliced = any(isinstance(g.iter, ast.Subscript) for g in gens)
+        ok = len(gens) == 2 and not any(g.ifs for g in gens) and not sliced
+        where_union = sets[0]
+    elif unions:
+        inner = unions[0].args[0].value
+        ok = isinstance(inner, (ast.GeneratorExp, ast.ListComp)) and len(inner.generators) == 1 \
+            and not inner.generators[0].ifs and not isinstance(inner.generators[0].iter, ast.Subscript)
+        where_union = unions[0]
+    else:
+        raise AnalysisError("align_indeterminants: how the common name set is built was not recognised")
     result.ob("align_indeterminants: common names are the union over all arguments", ok, module.loc(func), "")
     if not ok:
-        result.add(Finding("R-ALIGNFN", module, "align_indeterminants", sets[0] if sets else func,
+        result.add(Finding("R-ALIGNFN", module, "align_indeterminants", where_union,
                            "the common name set is not the union of the names of all arguments",
                            construct="common_names"))
     # numeric-suffix order of the common names
     sorts = [c for c in calls_in(func) if isinstance(c.func, ast.Name) and c.func.id == "sorted"]
-    ok = False
-    for call in sorts:
-        key = kwarg(call, "key")
-        if isinstance(key, ast.Lambda) and isinstance(key.body, ast.Call) and isinstance(key.body.func, ast.Name) \
-                and key.body.func.id == "int":
-            ok = True
+    sorts += [c for c in calls_in(func) if isinstance(c.func, ast.Attribute) and c.func.attr == "sort" and not c.args]
+    if not sorts:
+        raise AnalysisError("align_indeterminants: no sorted(...) of the common names found")
+
+    def _int_key(key):
+        """True: key maps a name to int(...); False: known string-like order; None: unknown."""
+        if key is None:
+            return False
+        if isinstance(key, ast.Lambda):
+            body = key.body
+            if isinstance(body, ast.Call) and isinstance(body.func, ast.Name) and body.func.id == "int":
+                return True
+            if isinstance(body, ast.Tuple) and body.elts and isinstance(body.elts[0], ast.Call) \
+                    and isinstance(body.elts[0].func, ast.Name) and body.elts[0].func.id == "int":
+                return True
+            return False
+        if isinstance(key, ast.Name):
+            if key.id in ("str", "len", "repr"):
+                return False
+            defs = [n for n in ast.walk(module.tree) if isinstance(n, ast.FunctionDef) and n.name == key.id]
+            if len(defs) == 1:
+                returns = [r.value for r in ast.walk(defs[0]) if isinstance(r, ast.Return)]
+                if returns and all(isinstance(v, ast.Call) and isinstance(v.func, ast.Name) and v.func.id == "int" for v in returns):
+                    return True
+                return None
+        return None
+
+    verdicts = [_int_key(kwarg(call, "key")) for call in sorts]
+    if any(v is None for v in verdicts) and not any(v is True for v in verdicts):
+        raise AnalysisError("align_indeterminants: sort key of the common names not recognised")
+    ok = any(v is True for v in verdicts)
     result.ob("align_indeterminants: names ordered by their integer index", ok, module.loc(func), "")
     if not ok:
         result.add(Finding("R-ALIGNFN", module, "align_indeterminants", sorts[0] if sorts else func,
